@@ -143,7 +143,8 @@ func runMatcherProperty(t *testing.T, prop string) {
 		runLevelStream(t, rep, rng.Fork(), env.Scale(150, 3000))
 	}
 	if prop == "C09" {
-		c09Frames(t, rep, rng.Fork(), env.Scale(8, 200))
+		c09Frames(t, rep, orc, rng.Fork(), env.Scale(8, 200))
+		c09SourceStream(t, rep, orc, rng.Fork())
 	}
 	if rep.Failed() {
 		t.Fail()
